@@ -7,12 +7,58 @@
 package dsync
 
 import (
+	"gorumsim/simrt"
 	"sync"
 	"time"
 )
 
 type Locker = sync.Locker
-type Pool = sync.Pool
+// Pool is sync.Pool with deterministic (LIFO) reuse, partitioned by run: a worker process executes
+// many runs, each in its own synctest bubble, and a package-level pool of the code under test must
+// not hand an object (a channel, say) created in one bubble to another. Within a run an object put
+// back is the next one handed out - one of sync.Pool's legal behaviours, and the one that exposes
+// reuse bugs.
+type Pool struct {
+	New func() any
+
+	mu    sync.Mutex
+	run   uintptr
+	items []any
+}
+
+func (p *Pool) reset() {
+	if t := simrt.RunToken(); t != p.run {
+		p.run, p.items = t, nil
+	}
+}
+
+// Get takes an object from the pool, or makes one with New.
+func (p *Pool) Get() any {
+	p.mu.Lock()
+	p.reset()
+	if n := len(p.items); n > 0 {
+		x := p.items[n-1]
+		p.items = p.items[:n-1]
+		p.mu.Unlock()
+		return x
+	}
+	p.mu.Unlock()
+	if p.New != nil {
+		return p.New()
+	}
+	return nil
+}
+
+// Put adds x to the pool.
+func (p *Pool) Put(x any) {
+	if x == nil {
+		return
+	}
+	p.mu.Lock()
+	p.reset()
+	p.items = append(p.items, x)
+	p.mu.Unlock()
+}
 type Map = sync.Map
 type WaitGroup = sync.WaitGroup
 type Cond = sync.Cond
